@@ -29,7 +29,6 @@ import (
 	"log/slog"
 	"net"
 	"reflect"
-	"regexp"
 	"runtime"
 	"sort"
 	"strconv"
@@ -516,58 +515,50 @@ var cliDebug = false
 func cliQuiet() { slog.SetDefault(slog.New(slog.NewTextHandler(io.Discard, nil))) }
 
 // ---------------------------------------------------------------------------------------------
-// error classification (the rendering inputs of ResponseBatchItem.Err are part of the property)
+// error classification
+//
+// The property speaks about WHAT an error carries (status, reason, message of a failed item), not about its
+// wording, nor about how several errors are joined. The canonical form of an error is therefore computed
+// from the error text AND the response the client received: `err` followed by one `item <status> <reason>
+// <message>` per non-successful item of that response whose three renderings (ttlv.EnumStr of the live
+// registry for the two enumerations) all occur in the text, in item order, separated by `;`.
 
-var cliItemErrRe = regexp.MustCompile(`(?s)^Operation "([^"]*)" failed \(status="([^"]*)", reason="([^"]*)"\) (.*)$`)
+func cliStatusStr(v uint32) string { return ttlv.EnumStr(kmip.ResultStatus(v)) }
+func cliReasonStr(v uint32) string { return ttlv.EnumStr(kmip.ResultReason(v)) }
 
-func cliItemErr(text string) (string, bool) {
-	m := cliItemErrRe.FindStringSubmatch(text)
-	if m == nil {
-		return "", false
-	}
-	return fmt.Sprintf("item %s %s %s %s", m[1], m[2], m[3], cliMsgHex(m[4])), true
-}
-
-// cliErrAnswer canonicalises an error by the lines of its text (errors.Join puts one error per line).
-func cliErrAnswer(err error) string {
-	lines := strings.Split(err.Error(), "\n")
-	parts := make([]string, len(lines))
-	for i, l := range lines {
-		if s, ok := cliItemErr(l); ok {
-			parts[i] = s
-		} else {
-			parts[i] = "other"
-		}
-	}
-	if len(parts) == 1 {
-		if parts[0] == "other" {
-			return "err"
-		}
-		return "err " + parts[0]
-	}
-	return "err join " + strings.Join(parts, ";")
-}
-
-var cliStatusNames = map[uint32]string{0: "Success", 1: "OperationFailed", 2: "OperationPending", 3: "OperationUndone"}
-var cliReasonNames = map[uint32]string{1: "ItemNotFound", 4: "InvalidMessage", 5: "OperationNotSupported", 0x100: "GeneralFailure"}
-
-// cliCarries checks that an error text surfaces status, reason and message of a failed item.
+// cliCarries says which of status / reason / message of a failed item an error text lacks ("" = none).
 func cliCarries(text string, it cliItem) string {
-	has := func(names map[uint32]string, v uint32) bool {
-		if n, ok := names[v]; ok && strings.Contains(text, n) {
-			return true
-		}
-		return strings.Contains(text, fmt.Sprintf("0x%08X", v))
-	}
 	switch {
-	case !has(cliStatusNames, it.status):
+	case !strings.Contains(text, cliStatusStr(it.status)):
 		return "status"
-	case !has(cliReasonNames, it.reason):
+	case !strings.Contains(text, cliReasonStr(it.reason)):
 		return "reason"
 	case !strings.Contains(text, it.msg):
 		return "message"
 	}
 	return ""
+}
+
+// cliCarried lists the failed items of the received response that the error text carries.
+func cliCarried(text string, items []cliItem) string {
+	var parts []string
+	for _, it := range items {
+		if it.status == 0 {
+			continue
+		}
+		if cliCarries(text, it) == "" {
+			parts = append(parts, fmt.Sprintf("item %s %s %s", cliStatusStr(it.status), cliReasonStr(it.reason), cliMsgHex(it.msg)))
+		}
+	}
+	return strings.Join(parts, ";")
+}
+
+// cliErrAnswer canonicalises an error returned for the received response `items`.
+func cliErrAnswer(err error, items []cliItem) string {
+	if c := cliCarried(err.Error(), items); c != "" {
+		return "err " + c
+	}
+	return "err"
 }
 
 // =============================================================================================
@@ -814,20 +805,20 @@ func runNegoCase(ctx *Ctx, nc negoCase) {
 		}
 		disc = cliVerStr(discSeen.version) + "/" + cliVersStr(discSeen.disc) + " ans=" + ans
 	}
-	if !nc.lib {
-		// what Roundtrip returned for the discovery request is the model's input
-		rt := nc.rt
-		for i := range events {
-			if events[i].seen.isDisc {
-				if a, err := cliAbstract(events[i].resp, events[i].err); err == nil {
-					rt = a
-				} else {
-					ctx.Res.Fail("nego: " + err.Error())
-				}
-				break
+	// what Roundtrip returned for the discovery request (the model's input when the server is scripted)
+	rtObs := nc.rt
+	for i := range events {
+		if events[i].seen.isDisc {
+			if a, err := cliAbstract(events[i].resp, events[i].err); err == nil {
+				rtObs = a
+			} else {
+				ctx.Res.Fail("nego: " + err.Error())
 			}
+			break
 		}
-		srv = "msg:" + rt.String()
+	}
+	if !nc.lib {
+		srv = "msg:" + rtObs.String()
 	}
 	line := prefix + srv
 	ctx.current = line
@@ -841,7 +832,7 @@ func runNegoCase(ctx *Ctx, nc negoCase) {
 		impl = "panic"
 		cliViolate(ctx, "C12", "no-panic", "dial:panic "+panicKey(pn), "Dial panicked: "+pn, line)
 	case dr.err != nil:
-		impl = cliErrAnswer(dr.err) + " disc=" + disc
+		impl = cliErrAnswer(dr.err, rtObs.items) + " disc=" + disc
 	default:
 		adopted = true
 		cl := dr.cl
@@ -1431,7 +1422,7 @@ func respCase(env *respEnv, api *respAPI, script cliRT, inject bool) {
 			env.dropWire()
 		}
 	case out.err != nil:
-		impl = cliErrAnswer(out.err)
+		impl = cliErrAnswer(out.err, seen.items)
 	case api.kind == "batch":
 		parts := make([]string, len(out.many))
 		for i, p := range out.many {
@@ -1444,15 +1435,9 @@ func respCase(env *respEnv, api *respAPI, script cliRT, inject bool) {
 		}
 		errs := "-"
 		if out.unwrapEr != nil {
-			var es []string
-			for _, l := range strings.Split(out.unwrapEr.Error(), "\n") {
-				if s, ok := cliItemErr(l); ok {
-					es = append(es, s)
-				} else {
-					es = append(es, "other")
-				}
+			if errs = cliCarried(out.unwrapEr.Error(), seen.items); errs == "" {
+				errs = "other"
 			}
-			errs = strings.Join(es, ";")
 		} else {
 			success = true
 		}
@@ -1550,9 +1535,9 @@ func respCase(env *respEnv, api *respAPI, script cliRT, inject bool) {
 	cls := strings.SplitN(impl, " ", 2)[0]
 	if strings.HasPrefix(impl, "err item") {
 		cls = "err-item"
-	}
-	if strings.HasPrefix(impl, "err join") {
-		cls = "err-join"
+		if strings.Contains(impl, ";") {
+			cls = "err-items"
+		}
 	}
 	ctx.Res.Count("resp.result=" + cls)
 	if !received {
@@ -1618,7 +1603,7 @@ func respDialCase(ctx *Ctx, clientVers []cliVer, script cliRT, inject bool) {
 		impl = "panic"
 		cliViolate(ctx, "C12", "no-panic", "dial:panic "+panicKey(pn), "Dial panicked: "+pn, line)
 	case dr.err != nil:
-		impl = cliErrAnswer(dr.err)
+		impl = cliErrAnswer(dr.err, seen.items)
 	default:
 		impl = "ok " + cliVerStr(dr.cl.Version())
 		_ = dr.cl.Close()
